@@ -241,6 +241,9 @@ func (c *ctx) methodCase() {
 	if fp := anyList(v["fport"]); len(fp) == 1 && num(fp[0]) == 0 && !allCmds(v["frm"]) {
 		v["frm"] = toIface(c.genStream(dirOf(num(v["mtype"])), 242))
 	}
+	if c.cleanOnly && !allCmds(v["fopts"]) && len(anyList(v["fopts"])) > 0 {
+		v["fopts"] = toIface(c.genStream(dirOf(num(v["mtype"])), 15))
+	}
 	switch c.rnd.Intn(8) {
 	case 0: // FOpts too long for the single block
 		v["fopts"] = c.genRawItem(16 + c.rnd.Intn(6))
